@@ -40,7 +40,7 @@ SlackMs == cfg.ttlMs * 3 + 2000
 
 PlanOf(o) == LET S == { i \in DOMAIN cfg.ops : cfg.ops[i].o = o } IN
              IF S = {} THEN [o |-> o, kind |-> "", fault |-> [cut |-> -1, hold |-> FALSE, leg |-> 0], cancelAfterMs |-> 0, deadlineMs |-> 0, expectCtx |-> FALSE,
-                                 all |-> FALSE, names |-> << >>]
+                                 mustSucceed |-> FALSE, all |-> FALSE, names |-> << >>]
              ELSE cfg.ops[CHOOSE i \in S : TRUE]
 
 \* the version ranges broker b advertised for an api: <<min, max>> or << >>
@@ -125,7 +125,7 @@ EndBad(e) ==
                             /\ e.brokers = metas[i].alive /\ e.ctrlr = metas[i].ctrlr
       ownBad == e.result = "response" /\ e.code = 0 /\ ~e.own
       cutBad == o \in cutSeen /\ e.result = "response" /\ e.code = 0
-      nextBad == kind = "c17" /\ plan.fault.cut < 0 /\ o \notin cutSeen /\ ~(e.result = "response" /\ e.own)
+      nextBad == plan.mustSucceed /\ o \notin cutSeen /\ ~(e.result = "response" /\ e.own)
       hangBad == e.result \in {"hang", "panic"}
       ctxEnded == o \in DOMAIN cancelled \/ plan.deadlineMs > 0
       lateBad == ctxEnded /\ e.sinceCancelMs > 5000
@@ -227,6 +227,7 @@ C06t_NoReuseAfterFailure == bad.reuse = {}
 C06t_ReleaseOnlyAfterComplete == bad.pending = {}
 \* C17 (Transport part)
 C17t_CutIsError == bad.cut = {}
+\* a call that nothing is wrong with (after a cut / an abandoned call / a failed exchange) returns its own response
 C17t_NextCallSucceeds == bad.nexterr = {}
 C17t_NoPanicNoHang == bad.hang = {}
 \* C09 (Transport part)
